@@ -1,5 +1,5 @@
 """C19 — tabular export and import are faithful round trips."""
-import json, math, struct, warnings
+import json, struct, warnings
 
 import numpy as np
 import pandas as pd
@@ -625,8 +625,9 @@ def one_model(ctx, rep, rec, M, m, items, ft_items, rng):
         if variant in ('data-columns', 'dropped', 'all-flags'):
             oracle_from_dataframe(M, m, df, m2, exc, rep, case, f'from_dataframe({variant})')
         rep.case(json.dumps(case, sort_keys=True), nontrivial=nontrivial)
+        # series compared by name (the order of the container index is not an observable of this property)
         impl = 'raises' if m2 is None else {'span': [tok(x) for x in m2.span], 'names': list(m2.names),
-                                            'data': [[k, toks(m2[k])] for k in m2.index]}
+                                            'data': sorted([k, toks(m2[k])] for k in m2.index)}
         ft_items.append((table_canon(df), list(M.NAMES), tok(kwargs.get('default_value', 0.0)), impl, case))
 
 
@@ -637,6 +638,8 @@ def check_from_table(ctx, rep, ft_items):
                       for t, names, d, _, _ in ft_items])
     for (t, names, d, impl, case), o in zip(ft_items, outs):
         model = json.loads(o) if not o.startswith('!') else o
+        if isinstance(model, dict):
+            model['data'] = sorted(model['data'])
         if model != impl:
             rep.disagree('from_dataframe: model != impl', case, model, impl)
 
